@@ -8,12 +8,19 @@ EXTENDS ModelJoin, Json, IOUtils
 Traces == JsonDeserialize(IOEnv.VERIF_TRACES)
 VARIABLES tid, done
 S(q) == {q[i] : i \in 1..Len(q)}
-Verdict(x) ==
+\* ON-clause records: x = [on, kind, pushed (ids of ON atoms found in the joined table's fetch), semijoin (BOOLEAN: the fetch
+\* carries an IN restriction fed by the other table), unknownpush]
+VerdictOn(x) ==
+  (IF S(x.pushed) \subseteq AllowedPushOn(x.on, x.kind) THEN {} ELSE {"OnConditionPushedThoughNotATopLevelConjunctOfAnInnerOrLeftJoin"})
+  \cup (IF x.semijoin => SemiJoinAllowed(x.on, x.kind) THEN {} ELSE {"SemiJoinRestrictionNotJustifiedByTheOnClause"})
+  \cup (IF x.unknownpush = 0 THEN {} ELSE {"PushedConditionNotInQuery"})
+VerdictW(x) ==
   (IF S(x.pushed) \subseteq AllowedPush(x.w) THEN {} ELSE {"PushedConditionNotATopLevelConjunctOfItsTable"})
   \cup (IF x.unknownpush = 0 THEN {} ELSE {"PushedConditionNotInQuery"})
   \cup (IF ModelArgs(x.w) \subseteq S(x.rowdict) THEN {} ELSE {"ModelArgumentMissing"})
   \cup (IF S(x.rowdict) \subseteq ModelArgs(x.w) /\ x.rowdictother = 0 THEN {} ELSE {"ModelArgumentNotATopLevelModelEquality"})
   \cup (IF Equivalent(x.outer, Residual(x.w)) THEN {} ELSE {"OuterFilterNotTheResidual"})
+Verdict(x) == IF "on" \in DOMAIN x THEN VerdictOn(x) ELSE VerdictW(x)
 Init == tid \in 1..Len(Traces) /\ done = FALSE
 Judge == /\ ~done /\ done' = TRUE /\ UNCHANGED tid /\ PrintT(<<"ACC", tid, Verdict(Traces[tid])>>)
 Spec == Init /\ [][Judge]_<<tid, done>>
